@@ -534,13 +534,13 @@ func fixedCorpus() []entry {
 			})...)
 		}
 	}
-	for _, v := range []string{"g", "xyz", "-5", "-0", ";a=b", "=5", "\"5\"", "\x00"} {
+	for _, v := range []string{"g", "xyz", "-5", "-0", ";a=b", "=5", "\"5\"", "\x00", "5g", "5xyz", "0x5", "5=a", "a-b"} {
 		cs("non-hex-chunk-size", "error", v)
 	}
 	for _, v := range []string{"FFFFFFFFFFFFFFFFF", "10000000000000000", "8000000000000000", "FFFFFFFFFFFFFFFF", "ffffffffffffffffffffffff", "123456789abcdef01234"} {
 		cs("overflowing-chunk-size", "error", v)
 	}
-	for _, v := range []string{"5xyz", "0x5", "00000000000000005", "4000000000000000", "7fffffffffffffff", " 5", "", "5 5", "+5", "5\t"} {
+	for _, v := range []string{"00000000000000005", "4000000000000000", "7fffffffffffffff", " 5", "", "5 5", "+5", "5\t"} {
 		cs("borderline-chunk-size", "observe", v)
 	}
 
@@ -1108,6 +1108,27 @@ func main() {
 	mempool.DefaultMemPool = poolTr
 	bodyTr = newTracker(mempool.New(1024, 1024*1024*1024))
 
+	if r.Phase == "e2e" {
+		if r.Replay != "" {
+			var c e2eCase
+			if err := r.ReplayCase(&c); err != nil {
+				fmt.Println("replay:", err)
+				return
+			}
+			runE2E(r, c)
+			return
+		}
+		n := r.N(54, 324)
+		for i := 0; i < n; i++ {
+			if !r.Mine(i) {
+				continue
+			}
+			c := genE2E(r, i)
+			r.Begin(c)
+			runE2E(r, c)
+		}
+		return
+	}
 	done := make(chan struct{})
 	if r.Replay != "" {
 		var c caseT
